@@ -57,7 +57,7 @@ def _call_ensure(fn, shapes):
 
 
 def _ens_op(fn, shapes):
-    return proto.op('ENS', {'fn': fn, 'variant': 'fixed'}, [list(s) for s in shapes])
+    return proto.op('ENSURE', {'fn': fn, 'variant': 'fixed'}, [list(s) for s in shapes])
 
 
 def _cmp_ens(what, o, r):
